@@ -113,7 +113,7 @@ Position::Position(std::string fen) : _zobrist_hash()
 
     _zobrist_hash.init(*this);
 
-    _history[0] = _zobrist_hash.get_key();
+    _history.assign(1, _zobrist_hash.get_key());
     _history_counter = 1;
 }
 
@@ -534,7 +534,9 @@ MoveInfo Position::do_move(Move move)
             set_enpassant_square(NO_SQUARE);
     }
 
-    assert(_history_counter < MAX_PLIES);
+    // the history grows with the game; undo_move only moves the counter back
+    if (_history_counter == static_cast<int32_t>(_history.size()))
+        _history.push_back(0ULL);
     VERIF_BOUND(_history_counter, std::size(_history), "position.cpp:history");
     _history[_history_counter++] = _zobrist_hash.get_key();
 
